@@ -17,12 +17,12 @@ RULE = ("symmetric coolers = structured matrix family on 6 (thorough: + 8) bins 
         "`converged` is true: row sums of diag(w) F diag(w) over bins with a non-zero row lie in [t/(1+e), t/(1-e)], e = sqrt(N tol)/scale, "
         "t = 1 (rescaled) or scale; NaN set == union of the documented filters recomputed on the dense matrix; every other weight "
         "finite and > 0. Non-trivial: >=1 converged scope with >=2 retained bins. Distinct by construction.")
-BOUNDS = {"quick": "16 structured matrices x 3 tables on 6 bins x 144 option points + sweeps on 6 coolers; max_iters 50",
-          "thorough": "all structured matrices on 6 and 8 bins x 3 tables x 144 points; all 1024 four-bin patterns x 2 tables x 72 points; sweeps on 18 coolers"}
+BOUNDS = {"quick": "16 structured matrices x 3 tables on 6 bins x 144 option points + sweeps on 6 coolers; max_iters 50; command line: 8 blacklists x 3 tables, and {genome-wide, --cis-only, --trans-only} x --min-count {0, median} x --tol {1e-5, 1e-1} x --name {weight, w2} with --check / --stdout / --force around each, on 6 coolers",
+          "thorough": "all structured matrices on 6 and 8 bins x 3 tables x 144 points; all 1024 four-bin patterns x 2 tables x 72 points; sweeps on 18 coolers; command line legs as in the quick tier"}
 ASSUMPTIONS = ["only runs/scopes that report convergence are judged (their number is in classes: scope:converged)",
                "bins whose filtered marginal is exactly zero, and bins within 1e-9 relative of the MAD cutoff, are not judged by the mask clause",
                "max_iters is capped at 50 inside the product (200 appears only in the single sweep dimension)"]
-EXPECT_CLASSES = {"*": ["scope:converged", "scope:not-converged", "mode:gw", "mode:cis", "mode:trans", "mask:some-nan", "mask:all-finite"]}
+EXPECT_CLASSES = {"*": ["scope:converged", "scope:not-converged", "mode:gw", "mode:cis", "mode:trans", "mask:some-nan", "mask:all-finite", "cli-blacklist", "cli-opts"]}
 
 TABLES6 = [((1,) * 6,), ((1,) * 4, (1,) * 2), ((1,) * 2, (1,) * 3, (1,))]
 TABLES8 = [((1,) * 8,), ((1,) * 5, (1,) * 3), ((1,) * 3, (1,) * 3, (1,) * 2)]
@@ -94,6 +94,9 @@ def units(tier):
         yield {"leg": "sameuri", "mode": mode}
     for ti in range(3):
         yield {"leg": "cli-blacklist", "t": ti}
+    for ti in range(3):
+        for mat in ("full", "mid_empty"):
+            yield {"leg": "cli-opts", "t": ti, "mat": mat}
     sw = [("s6", ti, mat) for ti in range(3) for mat in (("full", "checker", "mid_empty", "sparse3", "off1", "corners") if th else ("full", "mid_empty"))]
     for kind, ti, mat in sw:
         for dim in ("min_count", "blacklist", "tol", "max_iters", "x0", "rescale", "chunksize"):
@@ -349,8 +352,139 @@ def _cli_blacklist(R, ti, only):
     scratch.rm(d)
 
 
+def _cli_opts(R, ti, mat, only):
+    """the options of `cooler balance` that choose WHAT is computed and WHERE it goes: --cis-only / --trans-only, --min-count, --tol,
+    --name, --force, --check, --stdout, and the library's own store=True / store_name. Oracle: the column that ends up in the file
+    (values, NaN set, recorded statistics) is what the library call with the corresponding arguments returns - which the product leg
+    judges against the dense reference - and nothing else in the bin table changes."""
+    import cooler
+    import os
+    import shutil
+    import h5py
+    from vmc import build
+    clr0, A, chrom_of = get_cooler("s6", ti, mat)
+    n = len(A)
+    R.add("states")
+    R.add("traces")
+    d = scratch.sub(f"c10co_{ti}_{mat}_{os.getpid()}")
+    kk = 0
+    rowmin = sorted({int(x) for x in A.sum(axis=0)})
+    mc = rowmin[len(rowmin) // 2]
+    for mode in MODES:
+        for min_count in (0, mc):
+            for tol in (1e-5, 1e-1):
+                for name in ("weight", "w2"):
+                    kk += 1
+                    inner = {"mode": mode, "min_count": min_count, "tol": tol, "name": name}
+                    if only is not None and only != inner:
+                        continue
+                    R.order = (R.order[0], kk)
+                    R.ev(1, 1)
+                    R.add("transitions", 4)
+                    R.cls("cli-opts")
+                    R.cls("mode:" + mode)
+                    p = os.path.join(d, f"c{kk}.cool")
+                    shutil.copy(clr0.filename, p)
+                    kw = dict(cis_only=mode == "cis", trans_only=mode == "trans", ignore_diags=1, min_nnz=1, min_count=min_count, mad_max=0,
+                              tol=tol, max_iters=200, rescale_marginals=True)
+                    with np.errstate(all="ignore"):
+                        w0, st0 = cooler.balance_cooler(cooler.Cooler(p), **kw)
+                    flags = {"gw": [], "cis": ["--cis-only"], "trans": ["--trans-only"]}[mode]
+                    common = flags + ["--min-nnz", 1, "--min-count", min_count, "--mad-max", 0, "--ignore-diags", 1, "--tol", tol,
+                                      "--max-iters", 200, "--convergence-policy", "store_final"]
+                    args = ["balance"] + common + (["--name", name] if name != "weight" or kk % 2 else []) + [p]
+
+                    def same(w, tag, rtol=1e-9):
+                        w = np.asarray(w, dtype=float)
+                        if w.shape != w0.shape or not np.array_equal(np.isnan(w), np.isnan(w0)) or \
+                                not np.allclose(np.nan_to_num(w), np.nan_to_num(w0), rtol=rtol, atol=0):
+                            R.mismatch("balance-cli-differs-from-api:" + tag, inner, f"cli={w.tolist()} api={w0.tolist()}")
+                            return False
+                        return True
+                    # --check before: not balanced
+                    code, so, exc = build.cli(["balance", "--check", "--name", name, p])
+                    if code != 1:
+                        R.mismatch("balance --check says balanced on a file without the column", inner, f"code={code} out={so!s:.100} exc={exc!r:.100}")
+                    # --stdout: prints, stores nothing
+                    code, so, exc = build.cli(["balance"] + common + ["--name", name, "--stdout", p])
+                    if code != 0 or exc is not None:
+                        R.mismatch("balance-cli-fails:--stdout", inner, f"code={code} exc={exc!r:.200}")
+                    else:
+                        vals = [float(x) if x.strip() else np.nan for x in so.split("\n")][:n]
+                        same(vals, "--stdout", rtol=1e-5)
+                        if name in cooler.Cooler(p).bins().columns:
+                            R.mismatch("balance --stdout stores a column", inner, "")
+                    # the run proper
+                    code, so, exc = build.cli(args)
+                    if code != 0 or exc is not None:
+                        R.mismatch("balance-cli-fails", inner, f"code={code} exc={exc!r:.200}")
+                        continue
+                    c = cooler.Cooler(p)
+                    cols = list(c.bins().columns)
+                    if cols != ["chrom", "start", "end", name]:
+                        R.mismatch("balance-cli-columns", inner, f"{cols}")
+                        continue
+                    same(c.bins()[name][:].values, "stored")
+                    with h5py.File(p, "r") as f:
+                        at = dict(f["bins"][name].attrs)
+                    for key in ("converged", "scale", "var", "tol", "min_nnz", "min_count", "mad_max", "cis_only", "ignore_diags"):
+                        if key not in st0:
+                            continue
+                        a, b = np.atleast_1d(at.get(key)), np.atleast_1d(st0[key])
+                        try:
+                            okk = a.shape == b.shape and (np.allclose(a.astype(float), b.astype(float), rtol=1e-9, equal_nan=True))
+                        except Exception:
+                            okk = str(a.tolist()) == str(b.tolist())
+                        if not okk:
+                            R.mismatch("balance-cli-stored-statistics-differ", inner, f"{key}: stored={at.get(key)!r} api={st0[key]!r}")
+                    # pixels and the other bin columns untouched
+                    px = c.pixels()[:]
+                    px0 = clr0.pixels()[:]
+                    if not px.equals(px0):
+                        R.mismatch("balance-cli-touches-pixels", inner, "")
+                    # --check after: balanced under this name only
+                    code, so, exc = build.cli(["balance", "--check", "--name", name, p])
+                    if code != 0:
+                        R.mismatch("balance --check says not balanced after balancing", inner, f"code={code}")
+                    other = "w2" if name == "weight" else "weight"
+                    code, so, exc = build.cli(["balance", "--check", "--name", other, p])
+                    if code != 1:
+                        R.mismatch("balance --check true for another column name", inner, f"code={code}")
+                    # a second run without --force refuses and leaves the column; with --force it replaces it (other options -> other values)
+                    stored = c.bins()[name][:].values.copy()
+                    args2 = ["balance", "--min-nnz", 1, "--mad-max", 0, "--ignore-diags", 2, "--max-iters", 200, "--name", name]
+                    code, so, exc = build.cli(args2 + [p])
+                    now = cooler.Cooler(p).bins()[name][:].values
+                    if code == 0 or not np.array_equal(np.nan_to_num(now), np.nan_to_num(stored)):
+                        R.mismatch("balance without --force replaces an existing column", inner, f"code={code}")
+                    code, so, exc = build.cli(args2 + ["--force", p])
+                    with np.errstate(all="ignore"):
+                        w2, _ = cooler.balance_cooler(clr0, ignore_diags=2, min_nnz=1, mad_max=0, max_iters=200)
+                    now = cooler.Cooler(p).bins()[name][:].values
+                    if code != 0 or exc is not None or not np.allclose(np.nan_to_num(now), np.nan_to_num(w2), rtol=1e-9, atol=0) or \
+                            not np.array_equal(np.isnan(now), np.isnan(w2)):
+                        R.mismatch("balance --force does not replace the column", inner, f"code={code} exc={exc!r:.100} now={now.tolist()} want={w2.tolist()}")
+                    # the library's own store / store_name
+                    p2 = os.path.join(d, f"s{kk}.cool")
+                    shutil.copy(clr0.filename, p2)
+                    with np.errstate(all="ignore"):
+                        w3, st3 = cooler.balance_cooler(cooler.Cooler(p2), store=True, store_name=name, **kw)
+                    c2 = cooler.Cooler(p2)
+                    if list(c2.bins().columns) != ["chrom", "start", "end", name]:
+                        R.mismatch("store_name-not-honoured", inner, f"{list(c2.bins().columns)}")
+                    else:
+                        same(w3, "api-store-returned")
+                        same(c2.bins()[name][:].values, "api-store-stored")
+                    scratch.rm(p)
+                    scratch.rm(p2)
+    scratch.rm(d)
+
+
 def run(unit, R, tier, only=None):
     leg = unit["leg"]
+    if leg == "cli-opts":
+        _cli_opts(R, unit["t"], unit["mat"], only)
+        return
     if leg == "cli-blacklist":
         _cli_blacklist(R, unit["t"], only)
         return
